@@ -102,6 +102,7 @@ def _programs(tier, seed):
         'stop_false': [S(['cont', [], {}], sync=True), S(['stop', 'res', False], yields=1)],
         'raises': [S(['cont', [None], {}], yields=1), S(['raise', 'bad'], sync=True)],
         'killcmd': [S(['wait', 'w', None], yields=1), S(['kill', 'cmd-kill'], sync=True)],
+        'killcmd_bare': [S(['cont', [], {}], yields=1), S(['kill', None], sync=True)],  # the bare Kill() command: no message at all
         'single': [S(['value', None], sync=True)],
         'misuse': [S(['cont', [], {}], sync=True), S(['misuse', 'v'], yields=1)],  # ends EXCEPTED with plumpy's own EventError
         'two_waits': [S(['wait', 'a', {'x': 1}], sync=True), S(['wait', 'b', None], yields=1), S(['value', 0], sync=True)],
